@@ -5,7 +5,7 @@ cd /verif
 export CARGO_NET_OFFLINE=true
 mkdir -p .cache evidence
 for t in tools/translate/*.py; do case "$t" in */common.py) ;; *) python3 "$t";; esac; done
-(cd coq && coq_makefile -f _CoqProject -o Makefile && timeout 3000 make -j16)
+(cd coq && coq_makefile -f _CoqProject -o Makefile && timeout 3000 make -j16 -k || echo "WARNING: some Coq targets failed (reported by the per-property checks)")
 tools/build_model.sh
 cp /repo/Cargo.lock harness/Cargo.lock
 (cd harness && timeout 3000 cargo build --offline --bins)
